@@ -390,8 +390,39 @@ func ruleForkRegistry(c *Ctx) {
 				continue
 			}
 			if f := calleeFunc(pk.TypesInfo, call); f == nil || f.Name() != "ComputeForkDigest" {
-				c.unm(key, kv.Pos(), "value is not a ComputeForkDigest call")
-				continue
+				// or a local closure / package function that only wraps ComputeForkDigest(version, …) of its first parameter
+				wraps := false
+				var body *ast.BlockStmt
+				var ptype *ast.FieldList
+				if id, ok := ast.Unparen(call.Fun).(*ast.Ident); ok {
+					if d, ok := singleDefs(pk.TypesInfo, fd.Body)[pk.TypesInfo.Uses[id]]; ok && d.rhs != nil {
+						if lit, ok := ast.Unparen(d.rhs).(*ast.FuncLit); ok {
+							body, ptype = lit.Body, lit.Type.Params
+						}
+					}
+				}
+				if f != nil && body == nil && f.Pkg() == pk.Types {
+					c.P.funcDecls(func(p2 *packages.Package, f2 *ast.FuncDecl) {
+						if p2 == pk && p2.TypesInfo.Defs[f2.Name] == f {
+							body, ptype = f2.Body, f2.Type.Params
+						}
+					})
+				}
+				if body != nil && len(body.List) == 1 && ptype != nil && len(ptype.List) >= 1 && len(ptype.List[0].Names) >= 1 {
+					if r, ok := body.List[0].(*ast.ReturnStmt); ok && len(r.Results) == 1 {
+						if ic, ok := ast.Unparen(r.Results[0]).(*ast.CallExpr); ok && len(ic.Args) >= 1 {
+							if g := calleeFunc(pk.TypesInfo, ic); g != nil && g.Name() == "ComputeForkDigest" {
+								if a0, ok := ast.Unparen(ic.Args[0]).(*ast.Ident); ok && pk.TypesInfo.ObjectOf(a0) == pk.TypesInfo.ObjectOf(ptype.List[0].Names[0]) {
+									wraps = true
+								}
+							}
+						}
+					}
+				}
+				if !wraps {
+					c.unm(key, kv.Pos(), "value is not a ComputeForkDigest call")
+					continue
+				}
 			}
 			got := forkOfItem(pk.TypesInfo, call.Args[0])
 			seen[strings.ToUpper(k.Name)] = true
@@ -452,6 +483,42 @@ func ruleForkRegistry(c *Ctx) {
 				return true
 			})
 		}
+		if newT == nil {
+			// the clause hands out a named function of the package: what does that allocate?
+			for _, s := range cc.Body {
+				ast.Inspect(s, func(m ast.Node) bool {
+					id, ok := m.(*ast.Ident)
+					if !ok || newT != nil {
+						return true
+					}
+					f, ok := pk.TypesInfo.Uses[id].(*types.Func)
+					if !ok || f.Pkg() != pk.Types {
+						return true
+					}
+					c.P.funcDecls(func(p2 *packages.Package, f2 *ast.FuncDecl) {
+						if p2 != pk || f2.Body == nil || p2.TypesInfo.Defs[f2.Name] != f {
+							return
+						}
+						ast.Inspect(f2.Body, func(k ast.Node) bool {
+							if call, ok := k.(*ast.CallExpr); ok {
+								if nid, ok := call.Fun.(*ast.Ident); ok && nid.Name == "new" && len(call.Args) == 1 {
+									if _, isB := pk.TypesInfo.Uses[nid].(*types.Builtin); isB {
+										newT = pk.TypesInfo.TypeOf(call.Args[0])
+									}
+								}
+							}
+							if ue, ok := k.(*ast.UnaryExpr); ok && ue.Op == token.AND {
+								if cl, ok := ue.X.(*ast.CompositeLit); ok && newT == nil {
+									newT = pk.TypesInfo.TypeOf(cl)
+								}
+							}
+							return true
+						})
+					})
+					return true
+				})
+			}
+		}
 		nt := namedOf(newT)
 		if nt == nil {
 			c.unm(key, cc.Pos(), "allocated type not found")
@@ -472,11 +539,31 @@ func ruleForkRegistry(c *Ctx) {
 	pk, fd = c.P.mustFunc("eth2/beacon", "EnvelopeToSignedBeaconBlock")
 	found = 0
 	ast.Inspect(fd.Body, func(n ast.Node) bool {
-		cc, ok := n.(*ast.CaseClause)
-		if !ok || len(cc.List) != 1 {
+		// one body type and what is done for it: a clause of a type switch, or `if x, ok := body.(*T); ok { … }`
+		var typeExpr ast.Expr
+		var body []ast.Stmt
+		var at ast.Node
+		switch x := n.(type) {
+		case *ast.CaseClause:
+			if len(x.List) == 1 {
+				typeExpr, body, at = x.List[0], x.Body, x
+			}
+		case *ast.IfStmt:
+			if as, ok := x.Init.(*ast.AssignStmt); ok && len(as.Rhs) == 1 && len(as.Lhs) == 2 {
+				if ta, ok := ast.Unparen(as.Rhs[0]).(*ast.TypeAssertExpr); ok && ta.Type != nil {
+					if okId, isId := as.Lhs[1].(*ast.Ident); isId {
+						if cid, isC := ast.Unparen(x.Cond).(*ast.Ident); isC && cid.Name == okId.Name {
+							typeExpr, body, at = ta.Type, x.Body.List, x
+						}
+					}
+				}
+			}
+		}
+		if typeExpr == nil {
 			return true
 		}
-		bt := namedOf(pk.TypesInfo.TypeOf(cc.List[0]))
+		cc := at
+		bt := namedOf(pk.TypesInfo.TypeOf(typeExpr))
 		if bt == nil || bt.Obj().Name() != "BeaconBlockBody" {
 			return true
 		}
@@ -485,7 +572,7 @@ func ruleForkRegistry(c *Ctx) {
 		key := "EnvelopeToSignedBeaconBlock." + want
 		okAll := true
 		n2 := 0
-		for _, s := range cc.Body {
+		for _, s := range body {
 			ast.Inspect(s, func(m ast.Node) bool {
 				cl, ok := m.(*ast.CompositeLit)
 				if !ok {
@@ -589,14 +676,27 @@ func ruleForkRegistry(c *Ctx) {
 		polyInline = nil
 		// upgrade function called
 		var upFn *types.Func
-		ast.Inspect(ifs.Body, func(m ast.Node) bool {
-			if call, ok := m.(*ast.CallExpr); ok {
-				if f := calleeFunc(pk.TypesInfo, call); f != nil && strings.HasPrefix(f.Name(), "UpgradeTo") {
-					upFn = f
+		var findUp func(root ast.Node, depth int)
+		findUp = func(root ast.Node, depth int) {
+			ast.Inspect(root, func(m ast.Node) bool {
+				if call, ok := m.(*ast.CallExpr); ok {
+					if f := calleeFunc(pk.TypesInfo, call); f != nil {
+						if strings.HasPrefix(f.Name(), "UpgradeTo") {
+							upFn = f
+						} else if !f.Exported() && f.Pkg() == pk.Types && depth < 2 {
+							// an unexported function of the package that does the upgrade
+							c.P.funcDecls(func(p2 *packages.Package, f2 *ast.FuncDecl) {
+								if p2 == pk && f2.Body != nil && p2.TypesInfo.Defs[f2.Name] == f {
+									findUp(f2.Body, depth+1)
+								}
+							})
+						}
+					}
 				}
-			}
-			return true
-		})
+				return true
+			})
+		}
+		findUp(ifs.Body, 0)
 		// s.BeaconState = post  must be assigned in the body
 		stored := false
 		ast.Inspect(ifs.Body, func(m ast.Node) bool {
